@@ -24,6 +24,7 @@ RULE = ("The dilated world of C11 (dilate() timing, listeners, relay, byte-wise 
         "OldPeerCannotDilateError by quiescence. Non-trivial = close() issued while the Manager was not in "
         "WAITING/WANTING/CONNECTED, or the peer cannot dilate, or the peer is silent. Distinct = (features incl. "
         "Manager/Connector state at close, trace).")
+RULE += (' Added later: close() on the Leader right after it gave up on a silent connection (ping timeout: transport told to close, connectionLost not yet delivered); the silent side may be chosen by role.')
 ASSUMPTIONS = ["simulated TCP and mailbox; the mailbox link of a silent peer keeps working",
                "'always completes' = closed fires within the stabilisation budget"]
 
